@@ -248,14 +248,14 @@ def run(P, R, tier):
     na = seq.check_arg_roles(P, R, [FA + x for x in ("update_y", "update_z", "_latent_y_per_class", "compute_latent_x", "_compute_latent_x_per_class", "compute_accumulators_V", "compute_accumulators_U", "compute_accumulators_D")] + [J + x for x in ("e_step_v", "e_step_u", "e_step_d", "finalize_v", "finalize_u", "fit")])
     R.floor("ARGROLE (JFA training)", na, 60)
     for k in (FA + "update_y", FA + "compute_latent_x", FA + "initialize"):
-        proto.check_branch(P, R, k)
+        proto.check_branch(P, R, proto.site_func(P, k))
     own = owneng.Own(P)
     key = J + "fit"
     sinks = ("m_step_v", "m_step_u", "m_step_d")
-    proto.check_branch(P, R, key)
-    n = proto.check_copyback(P, R, own, key, sinks)
+    proto.check_branch(P, R, proto.site_func(P, key))
+    n = proto.check_copyback(P, R, own, proto.site_func(P, key), sinks)
     R.floor("COPYBACK sinks (JFA)", n, 3)
-    proto.check_tasks_pure(P, R, own, key, sinks)
+    proto.check_tasks_pure(P, R, own, proto.site_func(P, key), sinks)
     n, rets = dimrun.route(P, R, ["fa.jfa.fit", "fa.create_UVD"], rules=["DIM."], where_prefix=["factor_analysis:"])
     R.floor("DIM obligations (JFA training)", n, 25)
     # within a phase pass: one E-step feeding one M-step
